@@ -239,8 +239,8 @@ func TestVerifC42Parts(t *testing.T) {
 	opRegisterEnv(t)
 	scheme := opScheme(t)
 	ctx := context.Background()
-	n := r.N(80, 1500)
-	nFault := r.N(6, 120) // the first directed case and the first generated ones also get the fault enumeration
+	n := r.N(60, 1000)
+	nFault := r.N(5, 80) // the first directed case and the first generated ones also get the fault enumeration
 	for ci := 0; ci < n; ci++ {
 		rng := r.Rand(ci)
 		env := opGenEnv(rng)
@@ -350,6 +350,7 @@ func TestVerifC42Full(t *testing.T) {
 	r := verifkit.Start(t, "C42", "full")
 	defer r.Finish("[full ClusterReconciler.Reconcile, external etcd given in the spec or through "+operatorEtcdEndpointsEnv+", embedded etcd so that publish succeeds] "+c42Rule, c42Assumptions...)
 	opRegisterEnv(t)
+	opScratchTmp(t)
 	endpoints := testutil.StartEmbeddedEtcd(t)
 	cli, err := clientv3.New(clientv3.Config{Endpoints: endpoints, DialTimeout: 5 * time.Second})
 	if err != nil {
@@ -358,7 +359,7 @@ func TestVerifC42Full(t *testing.T) {
 	defer cli.Close()
 	scheme := opScheme(t)
 	ctx := context.Background()
-	n := r.N(60, 800)
+	n := r.N(40, 500)
 	for ci := 0; ci < n; ci++ {
 		rng := r.Rand(ci)
 		env := opGenEnv(rng)
